@@ -61,7 +61,7 @@ CHECKS = {
         "level_note": "Trusts the std::set reference model and that stored records respect the table's precondition (host bits zero, length <= width).",
         "stages": [{"driver": TABLES,
                     "quick": {"procs": 8, "rc": (6000, 100)},
-                    "thorough": {"procs": 16, "rc": (12000, 300), "timeout": 7200}}],
+                    "thorough": {"procs": 16, "rc": (20000, 300), "timeout": 7200}}],
     },
     "C02": {
         "level": "exploration",
@@ -77,7 +77,7 @@ CHECKS = {
         "level_note": "Trusts the std::set model; sources are compared by socket pointer identity as the library does.",
         "stages": [{"driver": TABLES,
                     "quick": {"procs": 8, "rc": (6000, 100)},
-                    "thorough": {"procs": 16, "rc": (12000, 300), "timeout": 7200}}],
+                    "thorough": {"procs": 16, "rc": (20000, 300), "timeout": 7200}}],
     },
     "C09": {
         "level": "exploration",
@@ -93,7 +93,7 @@ CHECKS = {
         "level_note": "Trusts the std::set model. Only single-threaded histories (the log is per table; ordering across threads is not part of the property).",
         "stages": [{"driver": TABLES,
                     "quick": {"procs": 8, "rc": (6000, 100)},
-                    "thorough": {"procs": 16, "rc": (12000, 300), "timeout": 7200}}],
+                    "thorough": {"procs": 16, "rc": (20000, 300), "timeout": 7200}}],
     },
     "C10": {
         "level": "exploration",
@@ -259,7 +259,7 @@ CHECKS = {
         "level_note": "Shares only OpenSSL's primitive with the library. Paths up to 8 hops in the quick tier, 40 in the thorough tier.",
         "stages": [{"driver": BGPSEC,
                     "quick": {"procs": 8, "rc": (2500, 100)},
-                    "thorough": {"procs": 16, "rc": (3000, 100), "timeout": 7200}}],
+                    "thorough": {"procs": 16, "rc": (5000, 100), "timeout": 7200}}],
     },
     "C12": {
         "level": "exploration",
@@ -273,7 +273,7 @@ CHECKS = {
         "level_note": "Shares only OpenSSL's primitive with the library.",
         "stages": [{"driver": BGPSEC,
                     "quick": {"procs": 8, "rc": (4000, 100)},
-                    "thorough": {"procs": 16, "rc": (2500, 100), "timeout": 7200}}],
+                    "thorough": {"procs": 16, "rc": (8000, 100), "timeout": 7200}}],
     },
     "C15": {
         "level": "exploration",
